@@ -304,6 +304,11 @@ pub mod proofs {
         let b = <Remote<'static, dyn Iface<Error = Echo>> as JsonSchema>::schema_name();
         let c = <Remote<'static, ()> as JsonSchema>::schema_name();
         assert!(same_bytes(&a, &b) && same_bytes(&b, &c) && same_bytes(&a, "Remote"));
+        // the identity under which schemars files the definition does not depend on the parameter either
+        // (otherwise two handles in one root schema are published as Remote, Remote2, ...)
+        let ia = <Remote<'static, Fix> as JsonSchema>::schema_id();
+        let ib = <Remote<'static, dyn Iface<Error = Echo>> as JsonSchema>::schema_id();
+        assert!(same_bytes(&ia, &ib));
         // T: an unsized parameter with no trait impls at all still has all three impls
         fn needs<X: serde::Serialize + serde::de::DeserializeOwned + JsonSchema>() {}
         // T-BEGIN runtime.T.remote_impls_unbounded
